@@ -746,7 +746,7 @@ func (c *Compiler) writeNode(node, parent *node, recv, v, vsrc string, depth int
 					if ch.ptr || nvPtr {
 						pfx = ""
 					}
-					c.wl("if uvalue, ok := value.(*", typ, "); ok {")
+					c.wl("if uvalue, ok := value.(*", typ, "); ok && uvalue != nil {")
 					c.wl(nv, " = ", pfx, "uvalue")
 					c.wl("}")
 
